@@ -330,7 +330,13 @@ def run(cx, rep):
                 for x in tsast.walk_inl(mod, cname, body_):
                     mc = method_call(x) if x["type"] == "CallExpression" else None
                     if mc and s(mc[0]) == "%s.key" % pvar and len(mc[2]) >= 2:
-                        keys_used.add(s(mc[2][1]))
+                        # the numeric reading of a property name (`Number(k)`, `+k`) is a question about the same key
+                        ke = unparen(mc[2][1])
+                        if ke.get("type") == "CallExpression" and s(ke["callee"]) in ("Number", "parseFloat", "Number.parseFloat") and ke["arguments"]:
+                            ke = unparen(ke["arguments"][0]["expression"])
+                        elif ke.get("type") == "UnaryExpression" and ke["operator"] == "+":
+                            ke = unparen(ke["argument"])
+                        keys_used.add(s(ke))
                 for key in sorted(keys_used):
                     n_ix += 1
                     ka = ts_common.known_atoms(fn, clone_site.get(id(site), site))
@@ -382,6 +388,14 @@ def run(cx, rep):
     # ---------------------------------------------------------------- C03.11
     rep.rule("C03.11", "no call is handed one argument per element of an input-sized array (spread in call position)")
     ts_common.unbounded_spread_rule(cx, rep, "C03.11", ['validate', 'parseAfterValidation', 'reportDecodeError'])
+    # ---------------------------------------------------------------- C03.13
+    rep.rule("C03.13", "no decision rests on comparing the number of input keys with the number of declared keys")
+    ts_common.key_count_rule(cx, rep, "C03.13")
+    # ---------------------------------------------------------------- C03.14
+    rep.rule("C03.14", "validate / parseAfterValidation / reportDecodeError keep no state on the validator instances")
+    from rules.c16 import instance_state_rule
+    instance_state_rule(ts_common.Family(cx).mod, None, rep, "C03.14", roots=("validate", "parseAfterValidation", "reportDecodeError"), what="validate() / parseAfterValidation() / reportDecodeError()", floor=40,
+                        why="the three entry points answer for one (value, options) pair at a time; an answer stored on the (shared) instance is replayed for another value or other options, and validate / safeParse / parse stop agreeing")
     # ---------------------------------------------------------------- C03.12
     rep.rule("C03.12", "validate() / reportDecodeError() touch their input only where it cannot be null or undefined")
     null_deref_rule(fam, mod, rep, "C03.12")
